@@ -8,6 +8,7 @@ RULE = ("metadynamics on 1-2 injected scalar variables (periodic or not), with a
         "frequency equal to or a multiple of it, hillWidth or gaussianSigmas, keepHills, well-tempered, expandBoundaries; "
         "trajectories are random walks with excursions beyond the grid boundaries, repeated steps, and a first step that is not 0 (half of the cases); "
         "non-trivial = at least two hills deposited; distinct by op text")
+FINDINGS_ARE_MODELLED = True     # CvModel/Meta.lean reproduces the listed gaussianSigmas buffer behaviour exactly
 ASSUMPTIONS = ["Gaussians are truncated to zero when the exponent sum exceeds 23 (the code's documented 1e-5 cut): part of the specification used"]
 
 
@@ -18,7 +19,7 @@ def gen(rng, tier):
         nd = [1, 1, 2][k % 3]
         use_grids = (k % 4) != 3
         wt = (k % 5) == 2
-        keep = use_grids and (k % 7) == 1
+        keep = use_grids and (k % 3) == 1
         lo, hi, w, per, wc, expand = [], [], [], [], [], []
         conf = ""
         for i in range(nd):
